@@ -28,6 +28,8 @@ func runC07(c *an.Ctx) {
 	// round 7: run numbers are never handed out by the cache proxy itself
 	passThrough(c, "R07e", "cacheproxy.NewRunNumber is a plain pass-through to the wrapped service", []string{"NewRunNumber"}, "a number fetched ahead of time, or kept, is handed out after numbers drawn later by others (or twice): run numbers are no longer increasing in the order of the starts")
 	c.As(map[string]string{"R18j": "R07f"}, func() { r18j(c) })
+	// round 9
+	r07g(c)
 }
 
 func r07a(c *an.Ctx) {
